@@ -29,9 +29,10 @@
    the PDU is a CONNECT_IND of 34 bytes (in memory and in the length field) addressed to the own
    address and address type, the advertising type in effect is connectable, for directed advertising
    InitA/TxAdd are the configured target, and the initiator passes the connection filter; the
-   remote address reported is InitA/TxAdd. The advertising type in effect is the type of the last
-   advertising PDU handed to the radio; between change_advertising<>() and the next PDU the types
-   proposed since are admitted as well.  Clause tag: accept_iff; a received PDU on which an assert
+   remote address reported is InitA/TxAdd. The advertising type in effect is the type that is on
+   air: the type of the last advertising PDU handed to the radio; change_advertising<>() does not
+   change it before the next PDU. Only if the advertiser was (re)started or timed out since without
+   handing a PDU to the radio, the type proposed at that moment is allowed as well.  Clause tag: accept_iff; a received PDU on which an assert
    of the code fails: fault.  The static predicates
    is_valid_connect_request / is_valid_scan_request are compared with their specification
    (tag static_iff). *)
@@ -217,29 +218,42 @@ Record mon25 := mkm25 {
   v_void : bool;
   v_pending : N;
   v_last : option atype;       (* type of the last advertising PDU handed to the radio *)
-  v_cands : list atype;        (* types proposed by change_advertising since that PDU *)
+  v_cands : list atype;        (* types the advertiser may have switched to since, without sending a PDU *)
   v_target : option addr;      (* directed_advertising_address *)
-  v_map : N                    (* enabled advertising channels (only to know when the map is empty) *)
+  v_map : N;                   (* enabled advertising channels (only to know when the map is empty) *)
+  v_prop : nat                 (* the type proposed by change_advertising (index), used from the next PDU on *)
 }.
 
-Definition minit25 (c : cfg) : mon25 := mkm25 false 0 None [] None 7.
-Definition void25 (m : mon25) : mon25 := mkm25 true (v_pending m) (v_last m) (v_cands m) (v_target m) (v_map m).
+Definition minit25 (c : cfg) : mon25 := mkm25 false 0 None [] None 7 O.
+Definition void25 (m : mon25) : mon25 :=
+  mkm25 true (v_pending m) (v_last m) (v_cands m) (v_target m) (v_map m) (v_prop m).
 
+(* a request is judged against the type that is on air: the type of the last advertising PDU handed
+   to the radio. Only when the advertiser was (re)started or timed out since WITHOUT handing a PDU to
+   the radio (it waits for start_advertising() or for the directed address) may it already have
+   switched to the proposed type; those types are allowed as well. *)
 Definition in_effect (m : mon25) : list atype :=
   match v_last m with Some t => t :: v_cands m | None => v_cands m end.
 
-Definition on_sched25 (c : cfg) (m : mon25) (x : sched) : verdict * mon25 :=
+Definition prop_types (c : cfg) (m : mon25) : list atype :=
+  match nth_error (types_of c) (v_prop m) with Some t => [t] | None => [] end.
+
+(* [handler]: the operation may have run handle_start_advertising / handle_adv_timeout *)
+Definition on_sched25 (c : cfg) (handler : bool) (m : mon25) (x : sched) : verdict * mon25 :=
   match x with
-  | NoSched => (Ok, m)
+  | NoSched =>
+      (Ok, if handler
+           then mkm25 false (v_pending m) (v_last m) (v_cands m ++ prop_types c m) (v_target m) (v_map m) (v_prop m)
+           else m)
   | Sched _ _ code =>
       match type_of_code c code with
-      | Some t => (Ok, mkm25 false (v_pending m + 1) (Some t) [] (v_target m) (v_map m))
+      | Some t => (Ok, mkm25 false (v_pending m + 1) (Some t) [] (v_target m) (v_map m) (v_prop m))
       | None => (Bad t_shape, m)
       end
   end.
 
 Definition answer25 (m : mon25) : mon25 :=
-  mkm25 false (v_pending m - 1) (v_last m) (v_cands m) (v_target m) (v_map m).
+  mkm25 false (v_pending m - 1) (v_last m) (v_cands m) (v_target m) (v_map m) (v_prop m).
 
 Definition addr_same (a b : addr) : bool :=
   bytes_eqb (abytes a) (abytes b) && Bool.eqb (arandom a) (arandom b).
@@ -262,30 +276,31 @@ Definition mstep25 (c : cfg) (m : mon25) (o : op) (r : out) : verdict * mon25 :=
                 then (Ok, answer25 m) else (Bad t_accept_iff, m)
             | ORej x =>
                 if existsb (fun t => negb (spec t)) (in_effect m)
-                then on_sched25 c (answer25 m) x else (Bad t_accept_iff, m)
+                then on_sched25 c true (answer25 m) x else (Bad t_accept_iff, m)
             | OFault => (Bad t_fault, m)     (* no received PDU may make the code fail *)
             | _ => (Bad t_shape, m)
             end
       | _, OFault => (Ok, void25 m)          (* the other preconditions are the business of the C24 monitor *)
       | Timeout, OSched x =>
-          if v_pending m =? 0 then (Ok, void25 m) else on_sched25 c (answer25 m) x
+          if v_pending m =? 0 then (Ok, void25 m) else on_sched25 c true (answer25 m) x
       | ConnReq p, OBool b =>
           (if Bool.eqb b (request_for_b 5 34 (c_off c) (c_own c) p) then Ok else Bad t_static_iff, m)
       | ScanReq p, OBool b =>
           (if Bool.eqb b (request_for_b 3 12 (c_off c) (c_own c) p) then Ok else Bad t_static_iff, m)
       | DAddr a, OSched x =>
-          on_sched25 c (mkm25 false (v_pending m) (v_last m) (v_cands m)
-                              (if addr_same a zero_addr then None else Some a) (v_map m)) x
+          on_sched25 c true (mkm25 false (v_pending m) (v_last m) (v_cands m)
+                                   (if addr_same a zero_addr then None else Some a) (v_map m) (v_prop m)) x
+      | LStart, OSched x => on_sched25 c true m x
+      | Start, OSched x => on_sched25 c true m x
+      | StartN _, OSched x => on_sched25 c true m x
       | Chg k, OSched NoSched =>
-          (Ok, match nth_error (types_of c) k with
-               | Some t => mkm25 false (v_pending m) (v_last m) (v_cands m ++ [t]) (v_target m) (v_map m)
-               | None => m
-               end)
+          (* takes effect with the next PDU; the PDU on air keeps its type *)
+          (Ok, mkm25 false (v_pending m) (v_last m) (v_cands m) (v_target m) (v_map m) k)
       | AddCh ch, OSched NoSched =>
-          (Ok, mkm25 false (v_pending m) (v_last m) (v_cands m) (v_target m) (N.lor (v_map m) (N.shiftl 1 (ch - 37))))
+          (Ok, mkm25 false (v_pending m) (v_last m) (v_cands m) (v_target m) (N.lor (v_map m) (N.shiftl 1 (ch - 37))) (v_prop m))
       | RmCh ch, OSched NoSched =>
-          (Ok, mkm25 false (v_pending m) (v_last m) (v_cands m) (v_target m) (N.ldiff (v_map m) (N.shiftl 1 (ch - 37))))
-      | _, OSched x => on_sched25 c m x
+          (Ok, mkm25 false (v_pending m) (v_last m) (v_cands m) (v_target m) (N.ldiff (v_map m) (N.shiftl 1 (ch - 37))) (v_prop m))
+      | _, OSched x => on_sched25 c false m x
       | _, _ => (Bad t_shape, m)
       end
     end.
